@@ -582,6 +582,14 @@ def enum_sameas(tier):
                 yield _mk({'mode': 'sameas', 'solver': name, 'exe': exe, 'installed': {exe: 'ok'}}, f, sh, i)
         yield _mk({'mode': 'sameas', 'solver': name, 'exe': 'mysolver', 'installed': {name: 'ok'}},
                   ENUM_FORMULAS[3], ENUM_SHAPES[0], i)          # the program itself is missing
+    # a supported program name whose interface is overridden by sameas (the program
+    # speaks the convention of the sameas solver, not the one of its own name)
+    for exe, name in (('lingeling', 'minisat'), ('cadical', 'march'), ('minisat', 'kissat'),
+                      ('march', 'minisat'), ('sat4j', 'minisat'), ('minisat', 'sat4j')):
+        for f in (ENUM_FORMULAS[3], ENUM_FORMULAS[5]):
+            for sh in ENUM_SHAPES[:2]:
+                i += 1
+                yield _mk({'mode': 'sameas', 'solver': name, 'exe': exe, 'installed': {exe: 'ok'}}, f, sh, i)
     for exe in EXES:
         for stt in ('ok', 'missing'):
             yield _mk({'mode': 'unsupported', 'exe': exe, 'installed': {exe: stt}}, ENUM_FORMULAS[3], ENUM_SHAPES[0], 0)
